@@ -180,6 +180,48 @@ func wrt1(c *Ctx) {
 				extra = append(extra, w)
 			}
 		}
+		// a confirmed writer that was renamed (or moved into a helper of the same package): as many
+		// unknown writers as confirmed ones that no longer write, all in the packages of the missing ones
+		if len(extra) > 0 {
+			gotSet := map[string]bool{}
+			for _, w := range got[row.field] {
+				gotSet[w] = true
+			}
+			exists := map[string]bool{}
+			for _, f := range c.ClosureFuncsDeep() {
+				exists[Q(f)] = true
+			}
+			var missing []string
+			for _, w := range row.may {
+				if !gotSet[w] && !exists[w] {
+					missing = append(missing, w) // the confirmed writer is gone under that name
+				}
+			}
+			pkgOf := func(q string) string {
+				if i := strings.Index(q, "."); i > 0 {
+					return q[:i]
+				}
+				return q
+			}
+			if len(missing) == len(extra) {
+				same := true
+				mp := map[string]int{}
+				for _, w := range missing {
+					mp[pkgOf(w)]++
+				}
+				for _, w := range extra {
+					mp[pkgOf(w)]--
+				}
+				for _, n := range mp {
+					if n != 0 {
+						same = false
+					}
+				}
+				if same {
+					extra = nil
+				}
+			}
+		}
 		mk := len(c.Obs)
 		ok := "written on an existing object only by " + strings.Join(row.may, ", ")
 		if len(row.may) == 0 {
